@@ -325,7 +325,7 @@ static int pre (int actor, const char *label, const char *prev, const char *exp,
 	if (rt_state (t) != F_PARKED) { snprintf (why, whyn, "spec: %s; the real thread is not at a scheduling point (state %d)", label, rt_state (t)); return -1; }
 	if (k && strcmp (k, rt_kind_name (rt_pending (t)->kind)) != 0) {
 		char fb[64];
-		snprintf (why, whyn, "spec expects %s (%s); the real code is about to do %s in %s", label, k, rt_kind_name (rt_pending (t)->kind), rt_fn_name (rt_pending (t)->site, fb, sizeof fb));
+		snprintf (why, whyn, "spec expects %s (%s); the real code is about to do %s in %s", label, k, rt_kind_name (rt_pending (t)->kind), rt_op_fn (rt_pending (t), fb, sizeof fb));
 		return -1;
 	}
 	return 0;
@@ -370,7 +370,7 @@ static void finish (int diverged) {
 		char b[300]; size_t o = 0;
 		for (i = 0; i < S.n; i++) if (rt_state (i) != F_DONE) {
 			char fb[64];
-			o += (size_t) snprintf (b + o, sizeof b - o, " t%d:%s@%s", i + 1, rt_kind_name (rt_pending (i)->kind), rt_fn_name (rt_pending (i)->site, fb, sizeof fb));
+			o += (size_t) snprintf (b + o, sizeof b - o, " t%d:%s@%s", i + 1, rt_kind_name (rt_pending (i)->kind), rt_op_fn (rt_pending (i), fb, sizeof fb));
 		}
 		if (guard >= 200000) rt_violation ("O-prog", "no termination within the step bound:%s", b);
 		else rt_violation ("O-prog", "threads are blocked for ever with nothing runnable:%s", b);
